@@ -308,14 +308,22 @@ def py_expr(e, Q):
 
 def py_select(spec, Q, nested=False, order_seed=None):
     """builder source; with order_seed the clause-adding calls are issued in a shuffled (legal) order"""
+    if nested and order_seed is None and NESTED_ORDER[0] is not None:
+        order_seed = NESTED_ORDER[0].getrandbits(32)
     calls = []
     head = Q
     for x in spec["srcs"]:
         if x.cte is not None:
             head += ".with_(%s, 'w1')" % py_select(x.cte, Q, nested=True)
             break
-    head += ".from_(%s)" % src_var(spec["from"][0])
-    pre = [".from_(%s)" % src_var(s) for s in spec["from"][1:]]
+    select_first = False
+    if order_seed is not None and head == Q and random.Random(order_seed ^ 0x5EED).random() < 0.4:
+        # Query.select(...) is a legal first call too: the first from_() then joins the shuffled calls (before the joins)
+        select_first = True
+        pre = [".from_(%s)" % src_var(s) for s in spec["from"]]
+    else:
+        head += ".from_(%s)" % src_var(spec["from"][0])
+        pre = [".from_(%s)" % src_var(s) for s in spec["from"][1:]]
     for s, how, on in spec["joins"]:
         how_py = {"inner": "inner", "left": "left", "cross": "cross", "right": "right", "outer": "outer"}[how]
         if on is None:
@@ -326,7 +334,10 @@ def py_select(spec, Q, nested=False, order_seed=None):
     for e, al in spec["select"]:
         p = py_expr(e, Q)
         sel.append("%s.as_(%r)" % (p, al) if al else p)
-    calls.append(".select(%s)" % ", ".join(sel))
+    if select_first:
+        head += ".select(%s)" % ", ".join(sel)
+    else:
+        calls.append(".select(%s)" % ", ".join(sel))
     if spec["where"] is not None:
         if spec.get("split_where") and spec["where"][0] == "and":
             calls.append(".where(%s)" % py_expr(spec["where"][1], Q))
@@ -370,6 +381,7 @@ def py_select(spec, Q, nested=False, order_seed=None):
 
 
 COMPENSATE_MUL_DIV = [False]
+NESTED_ORDER = [None]   # a random.Random: nested statements (IN / EXISTS / scalar / FROM sub-queries, WITH bodies) are built in shuffled legal orders too
 BIND = [None]     # a list: literals of the reference statement are bound parameters collected here (C05)
 
 
